@@ -34,6 +34,8 @@ import (
 //     ResolveBalances, Execute, GetTxMetaJSON/GetAccountsMetaJSON or vm.Run
 //     (recovered here; signature = entry point + top /repo frame of the stack);
 //   * vm.Run returning an error together with a result that carries postings;
+//     (loop `stateful` exercises the state the machine carries across statements
+//     and assets: see c27GenStateful);
 //   * Machine.Execute returning an error while Machine.Postings (the field a
 //     caller of Execute reads the result from) is non-empty — see
 //     c27MachinePostingsRefutes.
@@ -72,10 +74,15 @@ func init() {
 			"Every input is compiled; the returned error is rendered with Error(). Every input that compiles is executed 3 times on fresh machines (stage by stage, and through vm.Run) with variables derived from the program's declared variables " +
 			"(well-typed from edge pools, wrong-typed, `null`, empty, huge/float/negative numbers, nested JSON, missing and extra variables; passed directly as map[string]string or as a JSON document through vm.ScriptV1.ToCore) " +
 			"over a store with hostile balances (rich, zero, negative, 2^200, missing entries, store error) and metadata for every meta() key of the program (well-formed or malformed for its declared type, or missing). " +
-			"Shape = (origin, mutation kinds, compile outcome class, outcome of each stage of the first execution). Non-trivial = the input compiled and was executed.",
+			"Shape = (origin, mutation kinds, compile outcome class, outcome of each stage of the first execution). Non-trivial = the input compiled and was executed. " +
+			"Second loop `stateful`: one case = one generated VALID program of 2-6 statements (send incl. `[A *]`, save, set_tx_meta, set_account_meta, print) over 2-3 accounts and 2-3 assets drawn from small pools, so that the same account comes back under another asset and in another role " +
+			"(bounded source, `allowing overdraft up to`, `allowing unbounded overdraft`, balance() variable, save, destination; as a literal and through an account variable), with max/in-order/allotment sources, max/in-order/allotment destinations, `kept` and `remaining kept`; " +
+			"executed with its own variables over three balance tables (sparse: 40% of the (account, asset) pairs absent; rich; one of one-asset-per-account/full/empty/sparse) served by a store that answers every requested pair (0 when absent), and once under a hostile plan. " +
+			"Shape = (feature set of the program, outcome of the first execution). The situations executed are counted from the pairs really present in Machine.Balances after ResolveBalances (stateful_reached_Execute_with:*, stateful_Execute_ok_with:*) and have floors.",
 		Assumptions: []string{
 			"explored envelope: inputs of at most 16 KiB, nesting depth of sources/destinations/monetaries at most ~3000, at most 24 comment openers `/*` per input, and error lists rendered with Error() only up to 30 errors: beyond these the unchanged tree needs seconds to minutes per input (nested or unbalanced comments: 1 KiB -> 5 s, 2.3 KiB -> 42 s, 64 KiB -> 3 min; Error() of 4.5 KiB of garbage -> 1.5 MiB of text in 5-7 s), which a wall-clock watchdog may only report as inconclusive; the scaling is recorded in the evidence (nested_comment_compile_wall_time_not_a_verdict) and reported to the lead",
 			"a store that violates its contract (nil *big.Int balances, nil account with nil error) is out of scope; store errors, missing entries and negative balances are in scope",
+			"loop `stateful`: the store answers every requested (account, asset) pair, with 0 for the pairs absent from the balance table, as the production store does; about one table in 18 omits the absent pairs instead and then falls under the rule for stores that omit requested balances (a panic is counted under panics_only_reachable_with_a_store_that_omits_requested_balances, never a verdict); the situation counters (stateful_*_with:*) only count executions over in-contract tables and rely on the generator's own description of the program for roles (source kind, kept, save, destination)",
 			"hang detection is a wall-clock watchdog (20 s per input, generous: typical inputs take < 5 ms) and only ever yields INCONCLUSIVE",
 			"Machine.Printer is replaced by a draining printer (the default one writes every `print` to stdout)",
 			"Machine.Postings after a failed Execute is treated as `returned result` because the brief says so (constant c27MachinePostingsRefutes); vm.Run's *Result is checked independently",
@@ -153,6 +160,9 @@ var c27Corpus = []string{
 	"vars {\n  monetary $a = balance(@alice, COIN)\n  monetary $b = balance(@alice, USD/2)\n}\nsend $a (\n  source = @world\n  destination = {\n    1/2 to @bob\n    remaining kept\n  }\n)\nsend $b (\n  source = {\n    max $b from @alice\n    @world\n  }\n  destination = @bob\n)\n",
 	// 33 balance of one account spent from another one
 	"vars {\n  monetary $b = balance(@alice, COIN)\n}\nsend $b (\n  source = @treasury\n  destination = @bob\n)\n",
+	// 34 the same accounts met again under other assets and in other roles: bounded source, balance(), save,
+	// unbounded and bounded overdraft, kept, max, send-all (state carried from statement to statement)
+	"vars {\n  monetary $b = balance(@bank, USD/2)\n}\nsend [USD/2 10] (\n  source = @bank\n  destination = @alice\n)\nsave [EUR/2 5] from @bank\nsend [EUR/2 10] (\n  source = @bank allowing unbounded overdraft\n  destination = {\n    max [EUR/2 3] to @alice\n    remaining kept\n  }\n)\nsend [COIN 9] (\n  source = {\n    max [COIN 4] from @alice allowing unbounded overdraft\n    @bank allowing overdraft up to [COIN 50]\n  }\n  destination = {\n    1/3 to @bank\n    1/3 kept\n    remaining to @alice\n  }\n)\nsave [USD/2 *] from @alice\nsend [USD/2 *] (\n  source = {\n    @alice\n    @bank\n  }\n  destination = {\n    max $b kept\n    remaining to @carol\n  }\n)\n",
 	// 31 meta + balance + overdraft + save combined
 	"vars {\n  account $user\n  account $fees = meta($user, \"fees_account\")\n  portion $rate = meta($fees, \"rate\")\n  monetary $avail = balance($user, EUR/2)\n}\nsave [EUR/2 100] from $user\nsend $avail (\n  source = $user\n  destination = {\n    $rate to $fees\n    remaining kept\n  }\n)\nset_account_meta($user, \"last\", $avail)\n",
 }
@@ -484,6 +494,12 @@ type c27Plan struct {
 	balanceMode string
 	storeErr    string // "" | "balances" | "account"
 	runMeta     metadata.Metadata
+	// world (stateful workload): when non-nil the store answers from this table
+	// like the production store does: EVERY requested (account, asset) pair is
+	// answered, absent pairs with 0 (unless worldOmitsAbsent, which is the
+	// out-of-contract store of the `missing` balance mode).
+	world            map[string]map[string]*big.Int
+	worldOmitsAbsent bool
 }
 
 func c27MakePlan(rng *rand.Rand, prog *program.Program) c27Plan {
@@ -554,6 +570,25 @@ func (s c27Store) GetBalances(_ context.Context, q vm.BalanceQuery) (vm.Balances
 		accs = append(accs, a)
 	}
 	sort.Strings(accs)
+	if s.plan.world != nil {
+		for _, acc := range accs {
+			for _, asset := range q[acc] {
+				b, present := s.plan.world[acc][asset]
+				if !present {
+					if s.plan.worldOmitsAbsent {
+						*s.omitted = true
+						continue
+					}
+					b = new(big.Int)
+				}
+				if out[acc] == nil {
+					out[acc] = map[string]*big.Int{}
+				}
+				out[acc][asset] = new(big.Int).Set(b) // the machine aliases what it is given
+			}
+		}
+		return out, nil
+	}
 	for _, acc := range accs {
 		for _, asset := range q[acc] {
 			// the answer is a pure function of (plan seed, account, asset): the order in
@@ -709,12 +744,27 @@ func c27ErrClass(err error) string {
 type c27Outcome struct {
 	stage string // vars | resources | balances | execute | ok | panic
 	class string
+	// tracked (world plans only): the (account, asset) pairs present in
+	// Machine.Balances right after ResolveBalances, i.e. the state the machine
+	// carries from statement to statement; nil when that stage was not reached
+	tracked map[string]map[string]bool
 }
 
 func c27Execute(c *core.Case, r *core.Run, in c27Input, prog *program.Program, plan c27Plan, planNo int, storeSeed int64) c27Outcome {
 	detail := func(extra map[string]any) map[string]any {
 		d := map[string]any{"input": in.text, "origin": in.origin, "mutations": in.kinds, "plan": planNo, "vars": plan.vars, "vars_document": plan.varsDoc,
 			"account_metadata": plan.meta, "balance_mode": plan.balanceMode, "store_error": plan.storeErr, "run_metadata": plan.runMeta}
+		if plan.world != nil {
+			bal := map[string]map[string]string{}
+			for a, m := range plan.world {
+				bal[a] = map[string]string{}
+				for as, b := range m {
+					bal[a][as] = b.String()
+				}
+			}
+			d["balances"] = bal
+			d["balances_absent_pairs_answered_with_zero"] = !plan.worldOmitsAbsent
+		}
 		for k, v := range extra {
 			d[k] = v
 		}
@@ -770,6 +820,7 @@ func c27Execute(c *core.Case, r *core.Run, in c27Input, prog *program.Program, p
 	m.Printer = c27Drain
 	var err error
 	out := c27Outcome{stage: "ok", class: "ok"}
+	var tracked map[string]map[string]bool
 	stages := []struct {
 		name string
 		f    func() error
@@ -785,7 +836,7 @@ func c27Execute(c *core.Case, r *core.Run, in c27Input, prog *program.Program, p
 			return report(p)
 		}
 		if err != nil {
-			out = c27Outcome{stage: st.name, class: c27ErrClass(err)}
+			out = c27Outcome{stage: st.name, class: c27ErrClass(err), tracked: tracked}
 			r.Count("executions_error_at_"+st.name, 1)
 			r.Seen("execution_error_classes", st.name+": "+out.class)
 			if st.name == "Execute" && len(m.Postings) > 0 {
@@ -795,6 +846,16 @@ func c27Execute(c *core.Case, r *core.Run, in c27Input, prog *program.Program, p
 				}
 			}
 			break
+		}
+		if st.name == "ResolveBalances" && plan.world != nil {
+			tracked = map[string]map[string]bool{}
+			for a, perAsset := range m.Balances {
+				tracked[string(a)] = map[string]bool{}
+				for as := range perAsset {
+					tracked[string(a)][string(as)] = true
+				}
+			}
+			out.tracked = tracked
 		}
 	}
 	if err == nil {
@@ -870,22 +931,21 @@ func runC27(r *core.Run) {
 
 	c27CommentNestingProbe(r)
 
-	r.ForEach("main", r.N(60_000, 1_200_000), 0, func(c *core.Case) {
-		in := c27GenInput(c.Rng, c.Index)
-		in.text = c27Bound(in.text)
+	// guarded runs one case body under the in-flight file + watchdog regime
+	guarded := func(c *core.Case, in c27Input, body func()) {
 		slot := <-slots
 		file := filepath.Join(dir, fmt.Sprintf("%03d.txt", slot))
-		_ = os.WriteFile(file, []byte(fmt.Sprintf("check=C27 seed=%d tier=%s loop=main case=%d origin=%s mutations=%v\n-----\n%s", r.Seed, r.Tier, c.Index, in.origin, in.kinds, in.text)), 0o644)
+		_ = os.WriteFile(file, []byte(fmt.Sprintf("check=C27 seed=%d tier=%s loop=%s case=%d origin=%s mutations=%v\n-----\n%s", r.Seed, r.Tier, c.Loop, c.Index, in.origin, in.kinds, in.text)), 0o644)
 
 		done := make(chan struct{})
 		go func() {
 			defer close(done)
 			defer func() {
 				if p := recover(); p != nil {
-					r.Inconclusive(fmt.Sprintf("harness panic in main[%d]: %v\n%s", c.Index, p, debug.Stack()))
+					r.Inconclusive(fmt.Sprintf("harness panic in %s[%d]: %v\n%s", c.Loop, c.Index, p, debug.Stack()))
 				}
 			}()
-			c27Body(c, r, in)
+			body()
 		}()
 		timer := time.NewTimer(c27WatchdogSeconds * time.Second)
 		select {
@@ -894,16 +954,31 @@ func runC27(r *core.Run) {
 			slots <- slot
 		case <-timer.C:
 			// keep the file (under a name that is not reused) and abandon the goroutine
-			hung := filepath.Join(dir, fmt.Sprintf("HUNG-case-%d.txt", c.Index))
+			hung := filepath.Join(dir, fmt.Sprintf("HUNG-%s-case-%d.txt", c.Loop, c.Index))
 			_ = os.Rename(file, hung)
 			txt := in.text
 			if len(txt) > 1500 {
 				txt = txt[:1500] + "...(truncated, full input in " + hung + ")"
 			}
-			r.Inconclusive(fmt.Sprintf("watchdog: main[%d] (origin %s %v) did not return within %d s of wall clock; input: %q", c.Index, in.origin, in.kinds, c27WatchdogSeconds, txt))
+			r.Inconclusive(fmt.Sprintf("watchdog: %s[%d] (origin %s %v) did not return within %d s of wall clock; input: %q", c.Loop, c.Index, in.origin, in.kinds, c27WatchdogSeconds, txt))
 			r.Count("watchdog_fired", 1)
 			slots <- slot
 		}
+	}
+
+	r.ForEach("main", r.N(60_000, 1_200_000), 0, func(c *core.Case) {
+		in := c27GenInput(c.Rng, c.Index)
+		in.text = c27Bound(in.text)
+		guarded(c, in, func() { c27Body(c, r, in) })
+	})
+
+	// stateful: valid multi-statement programs that reuse a small set of accounts
+	// across different assets (state carried by the machine between statements)
+	c27StatefulFloors(r)
+	r.ForEach("stateful", r.N(20_000, 400_000), 0, func(c *core.Case) {
+		sp := c27GenStateful(c.Rng)
+		in := c27Input{text: sp.text, origin: "generated:stateful"}
+		guarded(c, in, func() { c27StatefulBody(c, r, in, sp) })
 	})
 	// normal completion: nothing is in flight any more
 	if entries, err := os.ReadDir(dir); err == nil {
@@ -1061,4 +1136,651 @@ func c27CommentNestingProbe(r *core.Run) {
 		out[fmt.Sprintf("unbalanced_openers_%03d_bytes_%d", k, len(src))] = fmt.Sprintf("%.0f ms (compiled=%v)", float64(time.Since(t).Microseconds())/1000, err == nil)
 	}
 	r.Extra("nested_comment_compile_wall_time_not_a_verdict", out)
+}
+
+// ---------- stateful valid programs (loop "stateful") ----------
+//
+// The machine carries state from statement to statement: Machine.Balances holds
+// one map per account the program needs a balance of (bounded source, or target
+// of a balance() variable), with one entry per needed asset. Sources with an
+// unbounded overdraft, destinations, `save` and the repayment of `kept` funds
+// all touch that table for (account, asset) pairs that may or may not be in
+// it. This generator therefore writes VALID programs of 2-6 statements over 2-3
+// accounts and 2-3 assets, so that the same account is met again under another
+// asset and in another role, and runs them over balance tables in which some
+// (account, asset) pairs are present and others are not.
+
+var c27SAccountPool = []string{"alice", "bob", "bank:main", "users:001", "fees", "escrow"}
+var c27SAssetPool = []string{"USD/2", "EUR/2", "COIN"}
+
+type c27SLeaf struct {
+	Account string `json:"account"`
+	Mode    string `json:"mode"` // plain | overdraft-bounded | overdraft-unbounded | world
+	InMax   bool   `json:"in_max"`
+}
+
+type c27SSend struct {
+	Asset  string     `json:"asset"`
+	All    bool       `json:"all"`
+	Leaves []c27SLeaf `json:"sources"`
+	Dests  []string   `json:"destinations"`
+	Kept   bool       `json:"kept"`
+}
+
+type c27SProgram struct {
+	text        string
+	vars        map[string]string
+	world       map[string]map[string]*big.Int
+	accounts    []string
+	assets      []string
+	sends       []c27SSend
+	balanceVars [][2]string // (account, asset)
+	saves       [][2]string // (account, asset)
+	feat        map[string]bool
+}
+
+type c27SGen struct {
+	rng      *rand.Rand
+	p        *c27SProgram
+	decls    []string
+	accVar   map[string]string // account name -> variable name
+	assetVar map[string]string
+	balVar   map[string]string // account|asset -> variable name
+	nvar     int
+	cur      *c27SSend
+}
+
+func (g *c27SGen) pct(n int) bool { return g.rng.Intn(100) < n }
+
+func (g *c27SGen) pickAccount() string { return g.p.accounts[g.rng.Intn(len(g.p.accounts))] }
+
+// accountRef renders an account as a literal or (sometimes) as an account
+// variable: `$a1` = alice and `@alice` are different resources for the compiler
+// (both may be sources of one statement) but the same account for the machine.
+func (g *c27SGen) accountRef(name string) string {
+	if name != "world" && g.pct(22) {
+		v, ok := g.accVar[name]
+		if !ok {
+			g.nvar++
+			v = fmt.Sprintf("a%d", g.nvar)
+			g.accVar[name] = v
+			g.decls = append(g.decls, "  account $"+v)
+			g.p.vars[v] = name
+			g.p.feat["account_variable"] = true
+		}
+		return "$" + v
+	}
+	return "@" + name
+}
+
+func (g *c27SGen) assetRef(asset string) string {
+	if g.pct(8) {
+		v, ok := g.assetVar[asset]
+		if !ok {
+			g.nvar++
+			v = fmt.Sprintf("c%d", g.nvar)
+			g.assetVar[asset] = v
+			g.decls = append(g.decls, "  asset $"+v)
+			g.p.vars[v] = asset
+			g.p.feat["asset_variable"] = true
+		}
+		return "$" + v
+	}
+	return asset
+}
+
+func (g *c27SGen) amount() string {
+	switch x := g.rng.Intn(100); {
+	case x < 5:
+		return "0"
+	case x < 62:
+		return fmt.Sprint(1 + g.rng.Intn(30))
+	case x < 96:
+		return fmt.Sprint(1 + g.rng.Intn(500))
+	default:
+		return c28Pick(g.rng, []string{"18446744073709551617", "1000000000000000000000000000000", "9223372036854775808"})
+	}
+}
+
+func (g *c27SGen) balanceVar(acc, asset string) string {
+	key := acc + "|" + asset
+	if v, ok := g.balVar[key]; ok {
+		return "$" + v
+	}
+	accRef, assetRef := g.accountRef(acc), g.assetRef(asset) // declared before the balance() that reads them
+	g.nvar++
+	v := fmt.Sprintf("b%d", g.nvar)
+	g.balVar[key] = v
+	g.decls = append(g.decls, fmt.Sprintf("  monetary $%s = balance(%s, %s)", v, accRef, assetRef))
+	g.p.balanceVars = append(g.p.balanceVars, [2]string{acc, asset})
+	g.p.feat["balance_variable"] = true
+	return "$" + v
+}
+
+// monetary renders a monetary expression of the given asset.
+func (g *c27SGen) monetary(asset string, allowBalance bool) string {
+	var s string
+	switch x := g.rng.Intn(100); {
+	case x < 10:
+		g.nvar++
+		v := fmt.Sprintf("m%d", g.nvar)
+		g.decls = append(g.decls, "  monetary $"+v)
+		g.p.vars[v] = asset + " " + g.amount()
+		g.p.feat["monetary_variable"] = true
+		s = "$" + v
+	case x < 26 && allowBalance:
+		s = g.balanceVar(g.pickAccount(), asset)
+		g.p.feat["balance_variable_used_as_amount_or_cap"] = true
+	default:
+		s = "[" + g.assetRef(asset) + " " + g.amount() + "]"
+	}
+	if g.pct(6) {
+		s += " " + c28Pick(g.rng, []string{"+", "+", "-"}) + " [" + asset + " " + fmt.Sprint(g.rng.Intn(5)) + "]"
+		g.p.feat["monetary_arithmetic"] = true
+	}
+	return s
+}
+
+func (g *c27SGen) leaf(allowUnbounded bool, used map[string]bool, inMax bool, asset string) string {
+	for try := 0; try < 12; try++ {
+		name := g.pickAccount()
+		if allowUnbounded && g.pct(8) {
+			name = "world"
+		}
+		ref := g.accountRef(name)
+		if used[ref] {
+			continue
+		}
+		used[ref] = true
+		l := c27SLeaf{Account: name, Mode: "plain", InMax: inMax}
+		out := ref
+		if name == "world" {
+			l.Mode = "world"
+		} else {
+			switch x := g.rng.Intn(100); {
+			case x < 22:
+				l.Mode = "overdraft-bounded"
+				out += " allowing overdraft up to " + g.monetary(asset, true)
+				g.p.feat["overdraft_bounded"] = true
+			case x < 55 && allowUnbounded:
+				l.Mode = "overdraft-unbounded"
+				out += " allowing unbounded overdraft"
+				g.p.feat["overdraft_unbounded"] = true
+			default:
+				g.p.feat["bounded_source"] = true
+			}
+		}
+		g.cur.Leaves = append(g.cur.Leaves, l)
+		return out
+	}
+	return ""
+}
+
+// source: an unbounded leaf (world, unbounded overdraft) is only legal in last
+// position of an in-order source and never under `send [A *]`, except below a
+// `max` (which opens its own scope).
+func (g *c27SGen) source(depth int, allowUnbounded bool, used map[string]bool, inMax bool, asset, ind string) string {
+	x := g.rng.Intn(100)
+	switch {
+	case depth < 2 && x < 20:
+		sub := g.source(depth+1, true, map[string]bool{}, true, asset, ind)
+		if sub == "" {
+			return ""
+		}
+		g.p.feat["max_source"] = true
+		if g.pct(45) { // a cap that rarely binds: the statement, and the ones after it, go through
+			return "max [" + g.assetRef(asset) + " " + fmt.Sprint(600+g.rng.Intn(5000)) + "] from " + sub
+		}
+		return "max " + g.monetary(asset, true) + " from " + sub
+	case depth < 2 && x < 48:
+		n := 1 + g.rng.Intn(3)
+		var subs []string
+		for i := 0; i < n; i++ {
+			if c := g.source(depth+1, allowUnbounded && i == n-1, used, inMax, asset, ind+"  "); c != "" {
+				subs = append(subs, c)
+			}
+		}
+		if len(subs) == 0 {
+			return ""
+		}
+		g.p.feat["inorder_source"] = true
+		return "{\n" + ind + "  " + strings.Join(subs, "\n"+ind+"  ") + "\n" + ind + "}"
+	default:
+		return g.leaf(allowUnbounded, used, inMax, asset)
+	}
+}
+
+var c27SPortionSets = [][]string{
+	{"1/2", "1/2"}, {"1/3", "remaining"}, {"10%", "remaining"}, {"25%", "25%", "remaining"}, {"1/4", "3/4"},
+	{"12.5%", "1/8", "remaining"}, {"0%", "remaining"}, {"1/3", "1/3", "1/3"}, {"99%", "remaining"}, {"1/9973", "remaining"},
+}
+
+func (g *c27SGen) portions() []string {
+	set := append([]string{}, c27SPortionSets[g.rng.Intn(len(c27SPortionSets))]...)
+	g.rng.Shuffle(len(set), func(i, j int) { set[i], set[j] = set[j], set[i] })
+	hasRemaining := false
+	for _, p := range set {
+		hasRemaining = hasRemaining || p == "remaining"
+	}
+	if hasRemaining { // portion variables are only legal next to `remaining`
+		for i, p := range set {
+			if p != "remaining" && g.pct(15) {
+				g.nvar++
+				v := fmt.Sprintf("p%d", g.nvar)
+				g.decls = append(g.decls, "  portion $"+v)
+				g.p.vars[v] = p
+				set[i] = "$" + v
+				g.p.feat["portion_variable"] = true
+			}
+		}
+	}
+	return set
+}
+
+func (g *c27SGen) keptOrTo(depth int, asset, ind string, remaining bool) string {
+	if g.pct(38) {
+		g.cur.Kept = true
+		g.p.feat["kept"] = true
+		if remaining {
+			g.p.feat["remaining_kept"] = true
+		}
+		return "kept"
+	}
+	return "to " + g.dest(depth+1, asset, ind)
+}
+
+func (g *c27SGen) dest(depth int, asset, ind string) string {
+	x := g.rng.Intn(100)
+	switch {
+	case depth < 2 && x < 30:
+		out := "{\n"
+		for i := g.rng.Intn(3); i > 0; i-- {
+			out += ind + "  max " + g.monetary(asset, true) + " " + g.keptOrTo(depth, asset, ind+"  ", false) + "\n"
+			g.p.feat["max_destination"] = true
+		}
+		g.p.feat["inorder_destination"] = true
+		return out + ind + "  remaining " + g.keptOrTo(depth, asset, ind+"  ", true) + "\n" + ind + "}"
+	case depth < 2 && x < 55:
+		out := "{\n"
+		for _, p := range g.portions() {
+			out += ind + "  " + p + " " + g.keptOrTo(depth, asset, ind+"  ", p == "remaining") + "\n"
+		}
+		g.p.feat["allotment_destination"] = true
+		return out + ind + "}"
+	default:
+		name := g.pickAccount()
+		switch x := g.rng.Intn(100); {
+		case x < 25:
+			name = c28Pick(g.rng, []string{"dest:1", "dest:2"})
+		case x < 30:
+			name = "world"
+		}
+		g.cur.Dests = append(g.cur.Dests, name)
+		return g.accountRef(name)
+	}
+}
+
+func (g *c27SGen) send(asset string) string {
+	st := &c27SSend{Asset: asset}
+	g.cur = st
+	var head, src string
+	if g.pct(16) {
+		st.All = true
+		g.p.feat["send_all"] = true
+		head = "[" + g.assetRef(asset) + " *]"
+		for try := 0; src == "" && try < 10; try++ {
+			st.Leaves = nil
+			src = g.source(0, false, map[string]bool{}, false, asset, "  ")
+		}
+	} else {
+		head = g.monetary(asset, true)
+		if g.pct(16) {
+			ps := g.portions()
+			src = "{\n"
+			for _, p := range ps {
+				var c string
+				for c == "" {
+					c = g.source(1, true, map[string]bool{}, false, asset, "    ")
+				}
+				src += "    " + p + " from " + c + "\n"
+			}
+			src += "  }"
+			g.p.feat["allotment_source"] = true
+		} else {
+			for try := 0; src == "" && try < 10; try++ {
+				st.Leaves = nil
+				src = g.source(0, true, map[string]bool{}, false, asset, "  ")
+			}
+		}
+	}
+	if src == "" {
+		acc := g.pickAccount()
+		src = "@" + acc
+		st.Leaves = []c27SLeaf{{Account: acc, Mode: "plain"}}
+	}
+	dst := g.dest(0, asset, "  ")
+	g.p.sends = append(g.p.sends, *st)
+	g.cur = nil
+	if g.pct(10) {
+		g.p.feat["destination_first"] = true
+		return "send " + head + " (\n  destination = " + dst + "\n  source = " + src + "\n)"
+	}
+	return "send " + head + " (\n  source = " + src + "\n  destination = " + dst + "\n)"
+}
+
+func c27SBalance(rng *rand.Rand) *big.Int {
+	switch x := rng.Intn(100); {
+	case x < 10:
+		return new(big.Int)
+	case x < 45:
+		return big.NewInt(int64(1 + rng.Intn(50)))
+	case x < 75:
+		return big.NewInt(int64(1 + rng.Intn(2000)))
+	case x < 85:
+		return big.NewInt(1_000_000)
+	case x < 93:
+		return big.NewInt(-int64(1 + rng.Intn(300)))
+	default:
+		return new(big.Int).Lsh(big.NewInt(1), uint(60+rng.Intn(80)))
+	}
+}
+
+// c27SWorld: balance table over accounts x assets. mode "sparse": every pair is
+// absent with probability 40%; "one-asset": every account holds exactly one of
+// the assets (an account known for one asset only); "full": every pair present;
+// "empty": no pair present; "rich": every pair present and large (statements
+// after the first ones are reached; which pairs the machine tracks depends on
+// the program only, not on the table).
+func c27SWorld(rng *rand.Rand, accounts, assets []string, mode string) map[string]map[string]*big.Int {
+	w := map[string]map[string]*big.Int{}
+	for _, a := range accounts {
+		only := assets[rng.Intn(len(assets))]
+		for _, as := range assets {
+			switch mode {
+			case "sparse":
+				if rng.Intn(100) < 40 {
+					continue
+				}
+			case "one-asset":
+				if as != only {
+					continue
+				}
+			case "empty":
+				continue
+			}
+			if w[a] == nil {
+				w[a] = map[string]*big.Int{}
+			}
+			if mode == "rich" {
+				w[a][as] = big.NewInt(int64(100_000 + rng.Intn(1_000_000)))
+				continue
+			}
+			w[a][as] = c27SBalance(rng)
+		}
+	}
+	return w
+}
+
+func c27GenStateful(rng *rand.Rand) *c27SProgram {
+	p := &c27SProgram{vars: map[string]string{}, feat: map[string]bool{}}
+	g := &c27SGen{rng: rng, p: p, accVar: map[string]string{}, assetVar: map[string]string{}, balVar: map[string]string{}}
+	perm := rng.Perm(len(c27SAccountPool))
+	for _, i := range perm[:2+rng.Intn(2)] {
+		p.accounts = append(p.accounts, c27SAccountPool[i])
+	}
+	perm = rng.Perm(len(c27SAssetPool))
+	for _, i := range perm[:2+rng.Intn(2)] {
+		p.assets = append(p.assets, c27SAssetPool[i])
+	}
+	// balance() variables declared up front (read whether or not a statement uses them)
+	for i := rng.Intn(3); i > 0; i-- {
+		g.balanceVar(g.pickAccount(), p.assets[rng.Intn(len(p.assets))])
+	}
+	n := 2 + rng.Intn(5)
+	var body []string
+	for i := 0; i < n; i++ {
+		asset := p.assets[i%len(p.assets)] // consecutive statements change asset
+		if g.pct(35) {
+			asset = p.assets[rng.Intn(len(p.assets))]
+		}
+		switch x := rng.Intn(100); {
+		case x < 72 || (i == n-1 && len(p.sends) < 2):
+			body = append(body, g.send(asset))
+		case x < 88:
+			acc := g.pickAccount()
+			p.saves = append(p.saves, [2]string{acc, asset})
+			p.feat["save"] = true
+			if g.pct(35) {
+				p.feat["save_all"] = true
+				body = append(body, "save ["+g.assetRef(asset)+" *] from "+g.accountRef(acc))
+			} else {
+				body = append(body, "save "+g.monetary(asset, true)+" from "+g.accountRef(acc))
+			}
+		case x < 94:
+			p.feat["set_tx_meta"] = true
+			body = append(body, fmt.Sprintf("set_tx_meta(\"k%d\", %s)", i, g.monetary(asset, true)))
+		case x < 98:
+			p.feat["set_account_meta"] = true
+			body = append(body, fmt.Sprintf("set_account_meta(%s, \"k%d\", %s)", g.accountRef(g.pickAccount()), i, g.monetary(asset, true)))
+		default:
+			p.feat["print"] = true
+			body = append(body, "print "+g.monetary(asset, true))
+		}
+	}
+	var sb strings.Builder
+	if len(g.decls) > 0 {
+		sb.WriteString("vars {\n" + strings.Join(g.decls, "\n") + "\n}\n")
+	}
+	sb.WriteString(strings.Join(body, "\n") + "\n")
+	p.text = sb.String()
+	p.world = c27SWorld(rng, p.accounts, p.assets, "sparse")
+	return p
+}
+
+// c27SCombos names the cross-statement / cross-asset situations one execution
+// went through, from the program's description and from the (account, asset)
+// pairs the machine really tracked (observed in Machine.Balances).
+func c27SCombos(p *c27SProgram, tracked map[string]map[string]bool) map[string]bool {
+	out := map[string]bool{}
+	partial := func(acc, asset string) bool { return len(tracked[acc]) > 0 && !tracked[acc][asset] }
+	for a := range tracked {
+		if len(tracked[a]) >= 2 {
+			out["account_tracked_for_several_assets"] = true
+		}
+	}
+	roles := map[string]map[string]bool{} // account -> assets it is met with as source / balance() / save
+	meet := func(acc, asset string) {
+		if acc == "world" {
+			return
+		}
+		if roles[acc] == nil {
+			roles[acc] = map[string]bool{}
+		}
+		roles[acc][asset] = true
+	}
+	unbounded, kept := false, false
+	for _, s := range p.sends {
+		kept = kept || s.Kept
+		for _, l := range s.Leaves {
+			meet(l.Account, s.Asset)
+			if l.Mode == "overdraft-unbounded" {
+				unbounded = true
+			}
+			if l.Mode == "overdraft-unbounded" && partial(l.Account, s.Asset) {
+				out["unbounded_overdraft_on_account_tracked_for_another_asset_only"] = true
+				if s.Kept {
+					out["unbounded_overdraft_on_account_tracked_for_another_asset_only+kept_in_that_send"] = true
+				}
+				if l.InMax {
+					out["unbounded_overdraft_on_account_tracked_for_another_asset_only+below_max"] = true
+				}
+			}
+			if l.Mode == "overdraft-unbounded" && tracked[l.Account][s.Asset] {
+				out["unbounded_overdraft_on_pair_tracked_through_another_statement"] = true
+				if s.Kept {
+					out["unbounded_overdraft_on_pair_tracked_through_another_statement+kept_in_that_send"] = true
+				}
+			}
+		}
+		for _, d := range s.Dests {
+			if partial(d, s.Asset) {
+				out["destination_tracked_for_another_asset_only"] = true
+			}
+			if tracked[d][s.Asset] {
+				out["destination_is_a_tracked_pair"] = true
+			}
+		}
+	}
+	for _, sv := range p.saves {
+		meet(sv[0], sv[1])
+		if partial(sv[0], sv[1]) {
+			out["save_on_account_tracked_for_another_asset_only"] = true
+		}
+		if tracked[sv[0]][sv[1]] {
+			out["save_on_a_tracked_pair"] = true
+		}
+	}
+	for _, bv := range p.balanceVars {
+		meet(bv[0], bv[1])
+	}
+	for _, assets := range roles {
+		if len(assets) >= 2 {
+			out["same_account_with_several_assets"] = true
+			if unbounded && kept {
+				out["same_account_with_several_assets+unbounded_overdraft+kept"] = true
+			}
+		}
+	}
+	return out
+}
+
+// c27StatefulFloors: a run in which the generator did not produce (and the
+// machine did not execute) the cross-statement / cross-asset situations is
+// inconclusive, not silent. Quick-tier floors are about a third of what 20 000
+// programs yield (seeds 1-5); the thorough tier runs 20 times as many.
+func c27StatefulFloors(r *core.Run) {
+	r.Floor("stateful_compile_ok", int64(r.N(15_000, 300_000)))
+	r.Floor("stateful_programs_reaching_Execute", int64(r.N(12_000, 240_000)))
+	r.Floor("stateful_programs_Execute_ok", int64(r.N(6_000, 120_000)))
+	for k, min := range map[string]int{
+		"same_account_with_several_assets+unbounded_overdraft+kept":                       3000,
+		"account_tracked_for_several_assets":                                              4000,
+		"unbounded_overdraft_on_account_tracked_for_another_asset_only":                   1200,
+		"unbounded_overdraft_on_account_tracked_for_another_asset_only+kept_in_that_send": 600,
+		"unbounded_overdraft_on_account_tracked_for_another_asset_only+below_max":         400,
+		"unbounded_overdraft_on_pair_tracked_through_another_statement+kept_in_that_send": 1500,
+		"destination_tracked_for_another_asset_only":                                      2000,
+		"save_on_account_tracked_for_another_asset_only":                                  1000,
+		"save_on_a_tracked_pair":                                                          1500,
+	} {
+		r.Floor("stateful_reached_Execute_with:"+k, int64(r.N(min, min*20)))
+	}
+	r.Floor("stateful_Execute_ok_with:unbounded_overdraft_on_account_tracked_for_another_asset_only+kept_in_that_send", int64(r.N(350, 7000)))
+	r.Floor("stateful_Execute_ok_with:same_account_with_several_assets+unbounded_overdraft+kept", int64(r.N(1500, 30_000)))
+	r.Floor("stateful_features", 22)
+}
+
+func c27StatefulBody(c *core.Case, r *core.Run, in c27Input, sp *c27SProgram) {
+	rng := c.Rng
+	counts := map[string]int64{"inputs": 1, "inputs_" + in.origin: 1, "input_bytes": int64(len(in.text))}
+	defer func() {
+		for k, v := range counts {
+			r.Count(k, v)
+		}
+	}()
+	r.Seen("origins", in.origin)
+
+	var prog *program.Program
+	var err error
+	if p := c27Guard("compiler.Compile", func() { prog, err = compiler.Compile(in.text) }); p != nil {
+		r.Seen("panic_sites", p.entry+" @ "+p.site)
+		counts["panics"]++
+		c.Violation("C27/panic:"+p.entry+":"+p.site, map[string]any{"input": in.text, "origin": in.origin, "panic": p.value, "stack": p.stack})
+		r.Eval(in.origin+"|panic", false)
+		return
+	}
+	if err != nil || prog == nil {
+		// the generator aims at valid programs: a rejection is recorded, it is not a verdict
+		counts["stateful_compile_error"]++
+		r.Seen("stateful_compile_error_classes", c27ErrClass(err))
+		r.Eval(in.origin+"|compile-error", false)
+		return
+	}
+	counts["stateful_compile_ok"]++
+	counts["stateful_statements"] += int64(len(sp.sends) + len(sp.saves))
+	feats := make([]string, 0, len(sp.feat))
+	for f := range sp.feat {
+		feats = append(feats, f)
+		r.Seen("stateful_features", f)
+		counts["stateful_programs_with:"+f]++
+	}
+	sort.Strings(feats)
+
+	reached, okRun := false, false
+	combosReached, combosOK := map[string]bool{}, map[string]bool{}
+	var first c27Outcome
+	for k := 0; k < 4; k++ {
+		var plan c27Plan
+		switch k {
+		case 0, 1, 2:
+			// the generator's own variables over a store that, like the production one,
+			// answers every requested pair (0 for the absent ones)
+			plan = c27Plan{vars: sp.vars, meta: map[string]string{}, balanceMode: "world:sparse", world: sp.world}
+			if k > 0 {
+				mode := "rich"
+				if k == 2 {
+					mode = []string{"one-asset", "one-asset", "full", "empty", "sparse"}[rng.Intn(5)]
+				}
+				plan.balanceMode = "world:" + mode
+				plan.world = c27SWorld(rng, sp.accounts, sp.assets, mode)
+				if rng.Intn(12) == 0 {
+					plan.worldOmitsAbsent = true // out-of-contract store: counted, never a verdict
+					plan.balanceMode += "+absent-pairs-omitted"
+				}
+			}
+		default:
+			plan = c27MakePlan(rng, prog) // hostile variables / balances / store errors
+		}
+		out := c27Execute(c, r, in, prog, plan, k, rng.Int63())
+		counts["executions"]++
+		counts["stateful_executions"]++
+		if k == 0 {
+			first = out
+		}
+		if plan.world == nil || plan.worldOmitsAbsent || out.tracked == nil {
+			continue
+		}
+		if out.stage != "ok" && out.stage != "Execute" {
+			continue
+		}
+		reached = true
+		combos := c27SCombos(sp, out.tracked)
+		for cb := range combos {
+			combosReached[cb] = true
+		}
+		if out.stage == "ok" {
+			okRun = true
+			for cb := range combos {
+				combosOK[cb] = true
+			}
+		} else {
+			r.Seen("stateful_Execute_error_classes", out.class)
+		}
+	}
+	if reached {
+		counts["stateful_programs_reaching_Execute"]++
+	}
+	if okRun {
+		counts["stateful_programs_Execute_ok"]++
+	}
+	for cb := range combosReached {
+		counts["stateful_reached_Execute_with:"+cb]++
+	}
+	for cb := range combosOK {
+		counts["stateful_Execute_ok_with:"+cb]++
+	}
+	r.Eval(fmt.Sprintf("%s|%s|%s:%s", in.origin, strings.Join(feats, "+"), first.stage, first.class), true)
+	if c.Index < 3 {
+		r.Sample(map[string]any{"origin": in.origin, "input": in.text, "vars": sp.vars, "features": feats, "first_execution": first.stage + ": " + first.class})
+	}
 }
